@@ -553,6 +553,17 @@ func (g *Graph) ReachingDefsAvoiding(id *ast.Ident, at Site, cut func(b *Block, 
 	return defs, entry
 }
 
+// ReachingDefsUnder is ReachingDefsAvoiding restricted to the executions that never take a cut edge: a block that can
+// only be entered through a cut edge contributes nothing (with the cut edges being those that contradict an assumption,
+// the result is the set of assignments that can have produced the value when the assumption holds).
+func (g *Graph) ReachingDefsUnder(id *ast.Ident, at Site, cut func(b *Block, k int) bool) (defs []ast.Node, entry bool) {
+	live := g.reachable(cut)
+	if !live[at.B] {
+		return nil, false
+	}
+	return g.ReachingDefsAvoiding(id, at, func(b *Block, k int) bool { return !live[b] || cut(b, k) })
+}
+
 type defKey struct {
 	id *ast.Ident
 	b  *Block
@@ -796,6 +807,13 @@ func (f *Fn) LocalDef(id *ast.Ident) ast.Expr {
 	g := f.Graph()
 	site := g.FactSite(id)
 	rhs, idx, tuple := g.defOf(id, site)
+	if rhs == nil {
+		// `m := X[k]; if m == nil { m = make(...); X[k] = m }`: afterwards m is X[k] again
+		if al := f.lazyInitAlias(id, v); al != nil {
+			f.defCache[id] = al
+			return al
+		}
+	}
 	if rhs == nil || idx != 0 {
 		return nil
 	}
@@ -813,6 +831,89 @@ func (f *Fn) LocalDef(id *ast.Ident) ast.Expr {
 	}
 	f.defCache[id] = rhs
 	return rhs
+}
+
+// lazyInitAlias recognises the lazily created sub-map (or slice, pointer): the local has exactly two definitions, the
+// lookup `m := E` (E an index expression or a field) and a fresh value `m = make(..) / T{} / &T{}` inside `if m == nil {
+// ... }`, and that same block stores the fresh value back with `E = m`. After the block m denotes E. The use must lie
+// after the block. It returns E or nil.
+func (f *Fn) lazyInitAlias(id *ast.Ident, v *types.Var) ast.Expr {
+	var lookup, fresh *ast.AssignStmt
+	n := 0
+	ast.Inspect(f.Body, func(nd ast.Node) bool {
+		if _, isLit := nd.(*ast.FuncLit); isLit {
+			return false
+		}
+		as, ok := nd.(*ast.AssignStmt)
+		if !ok || len(as.Lhs) != len(as.Rhs) {
+			if ok {
+				for _, l := range as.Lhs {
+					if lid, isId := l.(*ast.Ident); isId && f.ObjOf(lid) == types.Object(v) {
+						n += 10 // a tuple definition: not the idiom
+					}
+				}
+			}
+			return true
+		}
+		for i, l := range as.Lhs {
+			lid, isId := l.(*ast.Ident)
+			if !isId || f.ObjOf(lid) != types.Object(v) {
+				continue
+			}
+			n++
+			switch r := ast.Unparen(as.Rhs[i]).(type) {
+			case *ast.IndexExpr, *ast.SelectorExpr:
+				if as.Tok == token.DEFINE && len(as.Lhs) == 1 {
+					lookup = as
+				}
+				_ = r
+			default:
+				if f.KnownNonNil(as.Rhs[i]) && as.Tok == token.ASSIGN && len(as.Lhs) == 1 {
+					fresh = as
+				}
+			}
+		}
+		return true
+	})
+	if n != 2 || lookup == nil || fresh == nil || lookup.End() > fresh.Pos() {
+		return nil
+	}
+	ifs, ok := f.Prog.Parent(f.Prog.Parent(fresh)).(*ast.IfStmt)
+	if !ok || ifs.Else != nil || ifs.Init != nil {
+		return nil
+	}
+	// the condition is `m == nil`
+	be, ok := ast.Unparen(ifs.Cond).(*ast.BinaryExpr)
+	if !ok || be.Op != token.EQL {
+		return nil
+	}
+	var tested ast.Expr
+	switch {
+	case f.IsNilLit(be.Y):
+		tested = be.X
+	case f.IsNilLit(be.X):
+		tested = be.Y
+	}
+	if tid, isId := ast.Unparen(tested).(*ast.Ident); !isId || f.ObjOf(tid) != types.Object(v) {
+		return nil
+	}
+	// the block stores the fresh value back into the looked-up place
+	elem := lookup.Rhs[0]
+	stored := false
+	for _, st := range ifs.Body.List {
+		as, isAs := st.(*ast.AssignStmt)
+		if !isAs || as.Tok != token.ASSIGN || len(as.Lhs) != 1 || len(as.Rhs) != 1 {
+			continue
+		}
+		if rid, isId := ast.Unparen(as.Rhs[0]).(*ast.Ident); isId && f.ObjOf(rid) == types.Object(v) && as.Pos() > fresh.Pos() && f.SameExpr(as.Lhs[0], elem) {
+			stored = true
+		}
+	}
+	if !stored || id.Pos() < ifs.End() {
+		return nil
+	}
+	// the if statement follows the lookup directly in the same statement list (nothing in between changes E)
+	return elem
 }
 
 // Expand returns e with every local variable that has an unambiguous definition
